@@ -127,12 +127,19 @@ func (h *inFlightRequestsHandler) onIncomingFrameReceived(f *frame.Frame) error 
 }
 
 func (h *inFlightRequestsHandler) addInFlight(streamId int16, managedStreamId bool) (*inFlightRequest, error) {
-	inFlight := newInFlightRequest(h.String(), streamId, managedStreamId, h.ctx, h.maxPending, h.timeout)
 	h.inFlightLock.Lock()
 	defer h.inFlightLock.Unlock()
 	if h.isClosed() {
 		return nil, fmt.Errorf("%v: handler closed", h)
 	}
+	// check again, now under the write lock: another sender may have registered a request since the caller looked at the
+	// map under the read lock
+	if len(h.inFlight) >= h.maxInFlight {
+		return nil, fmt.Errorf("%v: too many in-flight requests: %v", h, h.maxInFlight)
+	} else if _, found := h.inFlight[streamId]; found {
+		return nil, fmt.Errorf("%v: stream id already in use: %d", h, streamId)
+	}
+	inFlight := newInFlightRequest(h.String(), streamId, managedStreamId, h.ctx, h.maxPending, h.timeout)
 	h.inFlight[streamId] = inFlight
 	return inFlight, nil
 }
